@@ -17,7 +17,7 @@ func init() {
 	register(&Property{
 		ID: "C16",
 		Meta: core.Meta{
-			Level: "other",
+			Level:       "other",
 			Explanation: "Five narrow structural obligations of RFC 6901 resolution, each a necessary condition: (R16.1) the tilde table is exactly {~1→/, ~0→~}, applied in one simultaneous pass (one strings.Replacer) or ~1 before ~0, and the identity fast path is guarded by a Contains test for every key; (R16.2) unescaping is applied per token, to the piece produced by the '/' split, and its result is what member/index lookup receives — never to the unsplit pointer; (R16.3) for the '#' form percent-decoding happens before the split (find receives url.PathUnescape's result or url.Parse().Fragment, never a raw slice of a '#' pointer); (R16.4) member lookup is string equality of key.Value with the token, returning the value adjacent to that key; sequence lookup parses base-10 unsigned and indexes the same children; (R16.5) every bounds check of package jsonpointer the compiler cannot prove is discharged by a guard or a reviewed table entry. Which node an arbitrary (document, pointer) pair designates is a runtime-value relation and is NOT decided (e.g. leading-zero indices like /01 are accepted).",
 			Assumptions: []string{"yaml mapping nodes have an even number of children (key/value pairs) — yaml.v3 invariant"},
 			TrustedBase: []string{"tables/panic_justified.json", "compiler check_bce"},
